@@ -90,7 +90,11 @@ def call(
     for exponent, coefficient in zip(poly.exponents, poly.coefficients):
         term = ones
         for power, name in zip(exponent, poly.names):
-            term = term * parameters[name] ** int(power)
+            value = parameters[name]
+            if isinstance(value, (list, tuple)):
+                # (a Python int exponent does not turn a sequence into an array)
+                value = numpy.asarray(value)
+            term = term * value ** int(power)
         if isinstance(term, numpoly.ndpoly):
             tmp = numpoly.outer(coefficient, term)
         else:
